@@ -4,12 +4,15 @@
    (`option`, the uri is the request's own), and every slice / index of the Rust code that can
    panic is an RFail site of `slice` / `ident_text_range`.
 
-   Quirks kept on purpose (the model transcribes the code):
-   - names are resolved through the CONTEXT entry, i.e. the table entry found by the NAME of the
-     enclosing global declaration (`doc_cursor`), with the local table first;
-   - the name of a procedure in its own header is therefore resolved in the procedure's local
-     table first (a parameter or variable with the procedure's name wins);
-   - the `int` test is a test on the spelling of the identifier under the cursor. *)
+   How names are resolved (the model transcribes the code, /repo b909979):
+   - through the CONTEXT entry, i.e. the table entry found by the NAME of the enclosing global
+     declaration (`doc_cursor`);
+   - inside a procedure with `features::lookup_table_for(global, local, global_position).lookup`
+     (Cursor.lookup_for): the local table first, unless the identifier stands in a GLOBAL POSITION
+     (`DocumentCursor::is_global_position`: the previous non-comment token is `proc`, `type`, `:`
+     or `of`, i.e. the name of a global declaration or a part of a type expression) - then the
+     local table is left out;
+   - the `int` test of goto.rs is a test on the spelling of the identifier under the cursor. *)
 From Spl Require Export Model.Cursor.
 
 Local Open Scope nat_scope.
@@ -47,8 +50,8 @@ Definition entry_tokens (d : doc) (p : pentry) (e : entry) : res (list token) :=
       slice s1 (ve_range v)
   end.
 
-(* goto::declaration on the cursor's identifier and context *)
-Definition declaration_at (d : doc) (name : text) (ctx : gentry) : res (option loc) :=
+(* goto::declaration on the cursor's identifier, context and `cursor.is_global_position()` *)
+Definition declaration_at (d : doc) (name : text) (ctx : gentry) (gp : bool) : res (option loc) :=
   match ctx with
   | GTypeE _ =>
       if text_eqb name s_int then ROk None
@@ -62,7 +65,7 @@ Definition declaration_at (d : doc) (name : text) (ctx : gentry) : res (option l
         | None => ROk None
         end
   | GProcE p =>
-      match lt_lookup (Some (pe_local p)) (Some (d_table d)) name with
+      match lookup_for (d_table d) (pe_local p) gp name with
       | Some e =>
           if is_default e then ROk None
           else
@@ -80,7 +83,7 @@ Definition opt_dt_eqb (a b : option dtype) : bool :=
   | _, _ => false
   end.
 
-Definition type_definition_at (d : doc) (name : text) (ctx : gentry) : res (option loc) :=
+Definition type_definition_at (d : doc) (name : text) (ctx : gentry) (gp : bool) : res (option loc) :=
   match ctx with
   | GTypeE _ =>
       if text_eqb name s_int then ROk None
@@ -93,7 +96,7 @@ Definition type_definition_at (d : doc) (name : text) (ctx : gentry) : res (opti
         | None => ROk None
         end
   | GProcE p =>
-      match lt_lookup (Some (pe_local p)) (Some (d_table d)) name with
+      match lookup_for (d_table d) (pe_local p) gp name with
       | Some (EntType t) =>
           if text_eqb name s_int then ROk None
           else
@@ -117,10 +120,10 @@ Definition type_definition_at (d : doc) (name : text) (ctx : gentry) : res (opti
       end
   end.
 
-Definition implementation_at (d : doc) (name : text) (ctx : gentry) : res (option loc) :=
+Definition implementation_at (d : doc) (name : text) (ctx : gentry) (gp : bool) : res (option loc) :=
   match ctx with
   | GProcE p =>
-      match lt_lookup (Some (pe_local p)) (Some (d_table d)) name with
+      match lookup_for (d_table d) (pe_local p) gp name with
       | Some (EntProc target) =>
           if is_default (EntProc target) then ROk None
           else
@@ -131,13 +134,14 @@ Definition implementation_at (d : doc) (name : text) (ctx : gentry) : res (optio
   | GTypeE _ => ROk None
   end.
 
-(* the common frame of the four handlers: doc_cursor, cursor.ident(), context *)
-Definition with_cursor {A} (d : doc) (line col : N) (k : text -> gentry -> res (option A)) : res (option A) :=
+(* the common frame of the four handlers: doc_cursor, cursor.ident(), cursor.is_global_position()
+   (computed before the cursor is destructured; it cannot panic), context *)
+Definition with_cursor {A} (d : doc) (line col : N) (k : text -> gentry -> bool -> res (option A)) : res (option A) :=
   do c <- doc_cursor d line col;
   match cursor_ident c with
   | Some (name, _) =>
       match c_ctx c with
-      | Some ctx => k name ctx
+      | Some ctx => k name ctx (is_global_position c)
       | None => ROk None
       end
   | None => ROk None
